@@ -203,3 +203,13 @@ Theorem C09_std_bins_overrides_unit_free :
     = pre_edges (Rops ora) true 1%R (std_bins_kw (Rops ora) true 1%R ll bin_no max_dist).
 Proof. exact bins_kw_unit_free. Qed.
 Print Assumptions C09_std_bins_overrides_unit_free.
+
+(* 10. vario_estimate_axis: the mask handed to the masked kernel is (own mask OR missing value); with C08_mask_is_filter:
+       a lag pair is used iff neither of its cells is masked by the field's own mask nor missing (NaN / no_data) *)
+Theorem C09_axis_pair_used :
+  forall (T : Type) (O : NumOps T) nd own (f : list (list T)) i j k, i + k < shape0 f -> j < shape1 f ->
+    andb (Z.eqb (aget2 0%Z (axis_mask O nd own f) i j) 0) (Z.eqb (aget2 0%Z (axis_mask O nd own f) (i + k) j) 0) = true
+    <-> (nth j (nth i own []) false = false /\ axis_missing O nd (aget2 (n0 O) f i j) = false) /\
+        (nth j (nth (i + k) own []) false = false /\ axis_missing O nd (aget2 (n0 O) f (i + k) j) = false).
+Proof. exact @axis_pair_used. Qed.
+Print Assumptions C09_axis_pair_used.
